@@ -165,7 +165,7 @@ Definition adist (tables : list (list Z)) (code : list Z) : Z :=
 
 (** outcome of a single-query search: the FULL sorted candidate list, the cut, and whether an
     unstable sort could legitimately have produced a different answer (ties at a cut point) *)
-Record single_out := { so_full : list (Z * Z); so_cut : nat; so_tie : bool }.
+Record single_out := { so_full : list (Z * Z); so_cut : nat; so_tie : bool; so_ptie : bool }.
 
 Definition score_at (l : list (Z * Z)) (i : nat) : Z := snd (nth i l (0, 0)).
 Definition tie_at {A} (key : A -> Z) (l : list A) (d : A) (cut : nat) : bool :=
@@ -185,7 +185,7 @@ Definition search_single (p : params) (s : vstate) (rq : request) (q : vec) : re
   if negb (st_trained s) then Err E_UNTRAINED
   else if negb (Z.of_nat (length q) =? p_dim p) then Err E_DIM
   else
-    let mk full cut tie := Ok {| so_full := full; so_cut := cut; so_tie := tie |} in
+    let mk full cut tie ptie := Ok {| so_full := full; so_cut := cut; so_tie := tie; so_ptie := ptie |} in
     match p_kind p with
     | KFlat =>
         match preprocess (p_metric p) q with
@@ -195,12 +195,12 @@ Definition search_single (p : params) (s : vstate) (rq : request) (q : vec) : re
             let k1 := sanitizeK (r_k rq) (Z.of_nat (length ents)) in
             let full := sort_cands (scan_list s rq (fun e => dist (p_metric p) pq (e_vec e)) ents) in
             let cut := Z.to_nat (sanitizeK k1 (Z.of_nat (length full))) in
-            mk full cut (tie_at (fun x => F32.key (snd x)) full (0, 0) cut)
+            mk full cut (tie_at (fun x => F32.key (snd x)) full (0, 0) cut) false
         end
     | KPQ =>
         let ents := all_entries s in
         match ents with
-        | [] => mk [] O false
+        | [] => mk [] O false false
         | _ =>
             match preprocess (p_metric p) q with
             | None => Err E_ZERO
@@ -208,7 +208,7 @@ Definition search_single (p : params) (s : vstate) (rq : request) (q : vec) : re
                 let tables := dist_tables p (st_codebooks s) pq in
                 let full := sort_cands (scan_list s rq (fun e => adist tables (e_code e)) ents) in
                 let cut := Z.to_nat (sanitizeK (r_k rq) (Z.of_nat (length full))) in
-                mk full cut (tie_at (fun x => F32.key (snd x)) full (0, 0) cut)
+                mk full cut (tie_at (fun x => F32.key (snd x)) full (0, 0) cut) false
             end
         end
     | KIVF | KIVFPQ =>
@@ -233,7 +233,7 @@ Definition search_single (p : params) (s : vstate) (rq : request) (q : vec) : re
                             end) probed in
             let full := sort_cands cands in
             let cut := Z.to_nat (sanitizeK (r_k rq) (Z.of_nat (length full))) in
-            mk full cut (ptie || tie_at (fun x => F32.key (snd x)) full (0, 0) cut)
+            mk full cut (tie_at (fun x => F32.key (snd x)) full (0, 0) cut) ptie
         end
     end.
 
@@ -257,6 +257,7 @@ Record exec_out := {
   xo_agg : list (Z * Z);      (* aggregated, sorted, BEFORE limit/autocut *)
   xo_n : option nat;          (* number of results after limit + autocut; None = autocut panic *)
   xo_tie : bool;              (* some per-query cut fell inside a tie group *)
+  xo_ptie : bool;             (* some probe cut fell inside a group of equidistant centroids *)
   xo_single : bool }.         (* exactly one query *)
 
 Definition execute (p : params) (s : vstate) (rq : request) : res exec_out :=
@@ -275,7 +276,7 @@ Definition execute (p : params) (s : vstate) (rq : request) : res exec_out :=
               let lim := limit agg (r_k rq) in
               let n := match autocut_results lim (r_cutoff rq) with
                        | Some l => Some (length l) | None => None end in
-              Ok {| xo_agg := agg; xo_n := n; xo_tie := existsb so_tie outs;
+              Ok {| xo_agg := agg; xo_n := n; xo_tie := existsb so_tie outs; xo_ptie := existsb so_ptie outs;
                     xo_single := (length allq =? 1)%nat |}
           end
       end
